@@ -81,6 +81,109 @@ func run(c dcase) string {
 	return kit.Res(crashed, err, kit.List(kit.I(int64(iv)), kit.Ints(outs), kit.I(evals)))
 }
 
+// runInterleaved builds one distribution per case and steps them in turn, one call each per round -
+// several triggers alive in one process (the stages of a file, a chart next to a run). Every one of
+// them is its own: the result per case is what run gives for that case alone.
+func runInterleaved(cs []dcase) []string {
+	type inst struct {
+		iv    time.Duration
+		fn    api.RateFunction
+		err   error
+		outs  []int64
+		evals int
+		now   time.Time
+		gaps  uint64
+		crash bool
+	}
+	insts := make([]*inst, len(cs))
+	for k := range cs {
+		c, in := cs[k], &inst{}
+		insts[k] = in
+		in.crash, _ = kit.Guard(func() {
+			ri, di := 0, 0
+			rateFn := func(time.Time) int {
+				in.evals++
+				ri++
+				if ri-1 < len(c.rates) {
+					return int(c.rates[ri-1])
+				}
+				return 0
+			}
+			randFn := func(n int) int {
+				if n <= 0 {
+					panic("invalid argument to Intn")
+				}
+				di++
+				if di-1 < len(c.rands) {
+					return int(c.rands[di-1])
+				}
+				return 0
+			}
+			in.iv, in.fn, in.err = api.NewDistribution(api.DistributionType(kinds[c.kind]), time.Duration(c.interval), rateFn, randFn)
+		})
+		in.now = time.Unix(1700000000, 0)
+		in.gaps = uint64(c.interval)*2654435761 + uint64(c.calls)
+	}
+	for round := 0; ; round++ {
+		active := false
+		for k, in := range insts {
+			if in.crash || in.err != nil || round >= cs[k].calls {
+				continue
+			}
+			active = true
+			crashed, _ := kit.Guard(func() { in.outs = append(in.outs, int64(in.fn(in.now))) })
+			if crashed {
+				in.crash = true
+				continue
+			}
+			in.gaps = in.gaps*6364136223846793005 + 1442695040888963407
+			switch (in.gaps >> 33) % 8 {
+			case 0:
+				in.now = in.now.Add(2 * in.iv)
+			case 1:
+				in.now = in.now.Add(in.iv + in.iv/3)
+			case 2:
+				in.now = in.now.Add(5 * in.iv)
+			default:
+				in.now = in.now.Add(in.iv)
+			}
+		}
+		if !active {
+			break
+		}
+	}
+	res := make([]string, len(cs))
+	for k, in := range insts {
+		res[k] = kit.Res(in.crash, in.err, kit.List(kit.I(int64(in.iv)), kit.Ints(in.outs), kit.I(in.evals)))
+	}
+	return res
+}
+
+func emitInterleaved(o *kit.Out, r *kit.Rand) {
+	n := int64(kit.Pick(r, 10, 10, 7, 25))
+	cycles := int(r.Range(70, 110))
+	steady := dcase{1, n * 100_000_000, nil, nil, cycles * int(n)}
+	base := r.Range(1, 9)
+	for k := 0; k < cycles; k++ {
+		steady.rates = append(steady.rates, base)
+	}
+	moving := dcase{1, n * 100_000_000, nil, nil, cycles * int(n)}
+	v := r.Range(3, 30)
+	for k := 0; k < cycles; k++ {
+		moving.rates = append(moving.rates, v)
+		v += r.Range(1, 7)
+	}
+	cs := []dcase{steady, moving}
+	if r.Bool() {
+		rnd := gen(r, false)
+		cs = append(cs, rnd)
+	}
+	for k, impl := range runInterleaved(cs) {
+		o.Case("dist", cs[k].args(), impl, "interleaved", "nt")
+	}
+	o.Count("kind", "interleaved instances")
+}
+
 func (c dcase) args() []string {
 	return []string{kit.I(c.kind), kit.I(c.interval), kit.Ints(c.rates), kit.Ints(c.rands), kit.I(c.calls)}
 }
@@ -220,6 +323,9 @@ func TestC12(t *testing.T) {
 		emit(o, dcase{1, 864000 * 100_000_000, []int64{863999}, nil, 864000}, "long")
 	}
 
+	for i := 0; i < kit.N(3, 40); i++ {
+		emitInterleaved(o, r)
+	}
 	n := kit.N(1500, 20000)
 	for i := 0; i < n; i++ {
 		emit(o, gen(r, kit.Thorough()), "gen")
